@@ -13,6 +13,9 @@ def run():
     rep = Report("C01")
     rep.trusted_base = ["z3 (quantified arrays/EPR-style formulas)", "pyvc symbolic executor"]
     section(rep, "localize", lambda: _localize(rep))
+    section(rep, "clean", lambda: _clean(rep))
+    section(rep, "merge", lambda: _merge(rep))
+    section(rep, "cluster.init", lambda: _init(rep))
     return rep
 
 
@@ -21,3 +24,53 @@ def _localize(rep):
     from contracts.sbc_model import sbc_ctx
 
     run_fv(rep, "localize.", sbc_ctx(), "SBC._localize_clusters", L.mk, L.post, loops=L.LOOPS)
+
+
+def _clean(rep):
+    from contracts import sbc_clean as C
+    from contracts.sbc_model import sbc_ctx
+
+    run_fv(rep, "clean.", sbc_ctx(), "SBC._clean_clusters", C.mk, C.post, loops=C.LOOPS, contracts=C.CONTRACTS)
+
+
+def _merge(rep):
+    """inner function merge of _merge_clusters: well-formedness of the merged cluster (C03 lemma: only same-species atoms join)"""
+    from contracts import cluster_c13 as K
+    from contracts.sbc_model import sbc_ctx
+    from engine.common import Report as _R
+
+    tmp = _R("tmp")
+    run_fv(tmp, "merge.", sbc_ctx(), "SBC._merge_clusters.merge", K.mk_merge, K.post_merge)
+    for ob in tmp.obligations:
+        if "(C13)" not in ob.id:
+            rep.add(ob)
+    for f in tmp.functions:
+        rep.functions.append(f)
+
+
+def _init(rep):
+    from contracts import cluster_c13 as K
+    from contracts.sbc_model import cluster_ctx
+    run_fv(rep, "cluster.init.", cluster_ctx(), "Cluster.__init__", K.mk_init, K.post_init)
+
+
+def replay_key(ob):
+    return ob.id.split(".")[0]
+
+
+def replay(ob):
+    from props import C01_native as N
+
+    sec = ob.id.split(".")[0]
+    fails = []
+    if sec == "localize":
+        fails = N.localize()
+    elif sec in ("clean", "cluster"):
+        fails = N.clean()
+    if not fails:
+        fails = N.end_to_end()
+    return {"reproduced": bool(fails), "failing_inputs": fails[:3], "section": sec}
+
+
+def replay_file(rp):
+    return replay(Ob(id=rp["obligation"]))
